@@ -89,6 +89,7 @@ type vpNext struct {
 	rpcclient.Client
 	c      *vpChainData
 	tamper int
+	sub    int
 }
 
 func (n *vpNext) Block(ctx context.Context, height *int64) (*ctypes.ResultBlock, error) {
@@ -123,9 +124,29 @@ func (n *vpNext) BlockResults(ctx context.Context, height *int64) (*ctypes.Resul
 	h := *height
 	res := n.c.results[h]
 	if n.tamper == 3 && len(res) > 0 {
-		cp := *res[0]
-		cp.Code = 99
-		res = append([]*abci.ResponseDeliverTx{&cp}, res[1:]...)
+		switch n.sub {
+		case 0: // one result's code changed to anything else
+			cp := *res[0]
+			cp.Code = vp.Uint32("forged-code")
+			vp.Assume(cp.Code != res[0].Code)
+			res = append([]*abci.ResponseDeliverTx{&cp}, res[1:]...)
+		case 1: // every result withheld
+			res = nil
+		case 2: // the last result withheld
+			res = res[:len(res)-1]
+		case 3: // one result twice
+			res = append(append([]*abci.ResponseDeliverTx{}, res...), res[len(res)-1])
+		case 4: // results in another order (when they differ)
+			if len(res) >= 2 {
+				res = append([]*abci.ResponseDeliverTx{res[1], res[0]}, res[2:]...)
+			} else {
+				res = nil
+			}
+		case 5: // one result's data changed
+			cp := *res[0]
+			cp.Data = append(append([]byte{}, cp.Data...), vp.Byte("forged-data"))
+			res = append([]*abci.ResponseDeliverTx{&cp}, res[1:]...)
+		}
 	}
 	return &ctypes.ResultBlockResults{Height: h, TxsResults: res,
 		BeginBlockEvents: []abci.Event{{Type: "begin"}}, EndBlockEvents: []abci.Event{{Type: "end"}}}, nil
@@ -190,6 +211,7 @@ func vpC20(method int) {
 	case 2:
 		if !honest {
 			tamper = 3
+			next.sub = vp.Choice("tamper-results", 6)
 		}
 		next.tamper = tamper
 		_, err := cl.BlockResults(ctx, &h)
